@@ -10,6 +10,12 @@ use std::collections::{BTreeMap, BTreeSet};
 
 pub const VERIF_DIR: &str = "/verif";
 
+/// Evidence and replay files go to /verif unless CSVERIF_OUT_DIR redirects them
+/// (used for background experiments that must not touch the committed evidence).
+fn out_dir() -> String {
+    std::env::var("CSVERIF_OUT_DIR").unwrap_or_else(|_| VERIF_DIR.to_string())
+}
+
 #[derive(Serialize, Deserialize, Clone, Debug)]
 pub struct Violation {
     /// Narrow machine-readable signature used for known-finding matching,
@@ -210,7 +216,7 @@ pub fn finish(out: &Outcome, info: &RunInfo) -> i32 {
     // replay files for new violations
     let mut replay_paths = vec![];
     if !new_violations.is_empty() {
-        let dir = format!("{}/replays", VERIF_DIR);
+        let dir = format!("{}/replays", out_dir());
         let _ = std::fs::create_dir_all(&dir);
         for (i, v) in new_violations.iter().enumerate() {
             let p = format!(
@@ -271,7 +277,7 @@ pub fn finish(out: &Outcome, info: &RunInfo) -> i32 {
         "wall_s": (info.wall_s * 100.0).round() / 100.0,
         "violations": new_violations.len(),
     });
-    let edir = format!("{}/evidence", VERIF_DIR);
+    let edir = format!("{}/evidence", out_dir());
     let _ = std::fs::create_dir_all(&edir);
     let epath = format!("{}/{}.json", edir, out.property);
     if let Err(e) = std::fs::write(&epath, serde_json::to_vec_pretty(&ev).unwrap()) {
